@@ -214,3 +214,552 @@ def idxMagic : List UInt8 := {T.lean_bytes(magic)}
 end Dulwich.Gen.Pack
 """
     return {"Pack": src}
+
+
+# ------------------------------------------------------------------------------------------------
+# canonicalisation of what the real code does
+
+TYPE_NAMES = {1: b"commit", 2: b"tree", 3: b"blob", 4: b"tag"}
+
+
+def real_err(e: BaseException) -> str:
+    import struct
+    import zlib
+    from dulwich.errors import ApplyDeltaError
+    if isinstance(e, KeyError):
+        return "err:key"
+    if isinstance(e, ApplyDeltaError):
+        return "err:delta"
+    if isinstance(e, (TypeError, ValueError, struct.error, zlib.error)):
+        return "err:format"
+    if isinstance(e, (AssertionError, NotImplementedError)):
+        return "err:other"
+    return "exc:" + type(e).__name__
+
+
+def obj_name(ty: int, data: bytes, algo="sha1") -> bytes:
+    import hashlib
+    h = hashlib.new(algo)
+    h.update(TYPE_NAMES[ty] + b" %d\0" % len(data))
+    h.update(data)
+    return h.digest()
+
+
+def ztable(buf: bytes, start: int = 12):
+    """Every offset >= start at which Python's zlib finds a complete stream: (offset, compressed length, data).
+    Computed without any pack parsing, so the model's `inflate` parameter is instantiated independently of
+    dulwich's own header parser."""
+    import zlib
+    out = []
+    n = len(buf)
+    mv = memoryview(buf)
+    for off in range(start, n - 1):
+        b0 = buf[off]
+        if (b0 & 0x0F) != 8 or (b0 >> 4) > 7:
+            continue
+        b1 = buf[off + 1]
+        if ((b0 << 8) | b1) % 31 or (b1 & 0x20):
+            continue
+        d = zlib.decompressobj()
+        try:
+            data = d.decompress(mv[off:])
+        except zlib.error:
+            continue
+        if not d.eof:
+            continue
+        out.append((off, n - off - len(d.unused_data), data))
+    return out
+
+
+def ztable_arg(tab) -> str:
+    return ",".join(f"{o}:{l}:{hx(d)}" for o, l, d in tab) or "-"
+
+
+def compress_chunks(chunks, level: int) -> bytes:
+    import zlib
+    c = zlib.compressobj(level=level)
+    return b"".join(c.compress(ch) for ch in chunks) + c.flush()
+
+
+class RecHash:
+    """A hash object that records what it was fed (to observe PackStreamReader's running hash)."""
+    size = 20
+
+    def __init__(self):
+        self.buf = bytearray()
+
+    def update(self, b):
+        self.buf += bytes(b)
+
+    def digest(self):
+        return b"\0" * self.size
+
+    def hexdigest(self):
+        return "00" * self.size
+
+
+def rechash(size):
+    return type("RecHash%d" % size, (RecHash,), {"size": size})
+
+
+# ------------------------------------------------------------------------------------------------
+# worker-side adapters (pure-Python variant: Python bisect_find_sha / apply_delta)
+
+def _load_idx(data: bytes, hs: int):
+    import io
+    import dulwich.pack as P
+    from dulwich.object_format import SHA1, SHA256
+    return P.load_pack_index_file("mem.idx", io.BytesIO(data), SHA1 if hs == 20 else SHA256)
+
+
+def lookup_all(idx, names):
+    out = []
+    for nm in names:
+        try:
+            out.append(f"ok:{idx._object_offset(nm)}")
+        except BaseException as e:  # noqa: BLE001 - canonicalised
+            if isinstance(e, (KeyboardInterrupt, SystemExit)):
+                raise
+            out.append(real_err(e))
+    return out
+
+
+def impl_idx_lookup(a):
+    try:
+        idx = _load_idx(unhx(a["idx"]), a["hs"])
+    except Exception as e:
+        return [real_err(e)]
+    try:
+        return lookup_all(idx, [unhx(n) for n in a["names"]])
+    finally:
+        idx.close()
+
+
+def impl_which(a):
+    import dulwich.pack as P
+    return {"bisect": getattr(P.bisect_find_sha, "__module__", None) or "builtin", "file": P.__file__}
+
+
+def impl_pack_getraw(a):
+    """Random access with the pure-Python bisect/apply_delta on files in the scratch dir."""
+    import warnings
+    warnings.simplefilter("ignore")
+    import dulwich.pack as P
+    from dulwich.object_format import SHA1
+    p = P.Pack(a["base"], object_format=SHA1)
+    out = []
+    try:
+        for n in a["names"]:
+            try:
+                ty, data = p.get_raw(unhx(n))
+                out.append(f"ok:{ty}:{hx(data)}")
+            except BaseException as e:  # noqa: BLE001
+                if isinstance(e, (KeyboardInterrupt, SystemExit)):
+                    raise
+                out.append(real_err(e))
+    finally:
+        p.close()
+    return out
+
+
+# ------------------------------------------------------------------------------------------------
+# stream 1: object-header and OFS-distance codecs
+
+SIZE_BOUNDS = [0, 1, 15, 16, 17, 127, 128, 2047, 2048, 2049, 2 ** 11 - 1, 2 ** 11, 2 ** 18 - 1, 2 ** 18, 65535, 65536,
+               2 ** 25 - 1, 2 ** 25, 2 ** 31, 2 ** 32 - 1, 2 ** 32, 2 ** 63, 2 ** 64, 2 ** 70]
+OFS_BOUNDS = [1, 2, 127, 128, 129, 255, 256, 16511, 16512, 16513, 2113663, 2113664, 2113665, 270549119, 270549120,
+              2 ** 31 - 1, 2 ** 31, 2 ** 32, 2 ** 32 + 1, 2 ** 40, 2 ** 63, 2 ** 64 + 3]
+
+
+def real_dechdr(buf: bytes) -> str:
+    import dulwich.pack as P
+    try:
+        raw, pos, _ = P.take_msb_bytes_at(buf, 0)
+    except AssertionError:
+        return "none"
+    ty, size = P._decode_object_header(raw)
+    return f"{ty} {size} {hx(buf[pos:])}"
+
+
+def real_decofs(buf: bytes) -> str:
+    import dulwich.pack as P
+    try:
+        raw, pos, _ = P.take_msb_bytes_at(buf, 0)
+    except AssertionError:
+        return "none"
+    try:
+        return f"ok {P._decode_delta_base_offset(raw)} {hx(buf[pos:])}"
+    except Exception as e:
+        return real_err(e)
+
+
+def codec_oracle(ctx, stream, kind, ty, n, tail: bytes):
+    """Property's words on the real code: header/offset written by pack_object_header reads back."""
+    import dulwich.pack as P
+    from dulwich.object_format import SHA1
+    if kind == "hdr":
+        enc = bytes(P.pack_object_header(ty, None, n, SHA1))
+        got = real_dechdr(enc + tail)
+        want = f"{ty} {n} {hx(tail)}"
+    else:
+        enc = bytes(P.pack_object_header(P.OFS_DELTA, n, 0, SHA1))[1:]
+        got = real_decofs(enc + tail)
+        want = f"ok {n} {hx(tail)}"
+    if got != want:
+        ctx.oracle_fail(stream, {"kind": "codec", "codec": kind, "ty": ty, "n": n, "tail": hx(tail)},
+                        f"{kind} codec does not round-trip on the real code: wrote {hx(enc)}, read back {got[:80]!r}, want {want[:80]!r}")
+
+
+def _stream_codecs(ctx):
+    import dulwich.pack as P
+    from dulwich.object_format import SHA1
+    rng = ctx.rng
+    cases = [(ty, n) for ty in (1, 2, 3, 4) for n in SIZE_BOUNDS]
+    for _ in range(ctx.budget(400)):
+        cases.append((rng.choice([1, 2, 3, 4]), rng.getrandbits(rng.choice([3, 4, 5, 7, 8, 11, 12, 16, 17, 18, 19, 25, 26, 32, 33, 64]))))
+    outs = ctx.driver.batch([f"c02.enchdr {t} {n}" for t, n in cases])
+    tails = [b"", b"\x00", b"\x80", b"\xff\x7f", b"x\x9c"]
+    dec_lines, dec_meta = [], []
+    for (ty, n), o in zip(cases, outs):
+        real = bytes(P.pack_object_header(ty, None, n, SHA1))
+        ctx.count("hdr.enc", (ty, n), True, f"{len(real)}B")
+        if o != hx(real):
+            ctx.disagree("hdr.enc", {"ty": ty, "size": n}, o, hx(real))
+        tail = rng.choice(tails) if rng.random() < 0.7 else rng.randbytes(rng.randint(1, 6))
+        codec_oracle(ctx, "hdr.roundtrip", "hdr", ty, n, tail)
+        dec_lines.append("c02.dechdr " + hx(real + tail))
+        dec_meta.append(real + tail)
+    # delta-typed headers as the writer emits them: header ++ distance / header ++ name
+    dl = []
+    for _ in range(ctx.budget(60)):
+        n, size = rng.choice(OFS_BOUNDS + [rng.getrandbits(rng.choice([7, 8, 14, 15, 21, 22, 29]))or 1]), rng.choice(SIZE_BOUNDS[:16])
+        dl.append((6, n, size))
+        dl.append((7, rng.randbytes(20), size))
+    outs6 = ctx.driver.batch([f"c02.enchdr {t} {s}" for t, _, s in dl])
+    outs6b = ctx.driver.batch([f"c02.encofs {b}" if t == 6 else "c02.encofs 1" for t, b, _ in dl])
+    for (t, b, s), h, o in zip(dl, outs6, outs6b):
+        real = bytes(P.pack_object_header(t, b, s, SHA1))
+        mod = unhx(h) + (unhx(o) if t == 6 else b)
+        ctx.count("hdr.enc.delta", (t, b, s), True, f"type{t}")
+        if mod != real:
+            ctx.disagree("hdr.enc.delta", {"ty": t, "base": b if t == 6 else hx(b), "size": s}, hx(mod), hx(real))
+    # arbitrary bytes through the decoder (incl. truncated headers)
+    for _ in range(ctx.budget(300)):
+        k = rng.randint(0, 6)
+        b = bytes(rng.choice([0x00, 0x0f, 0x10, 0x7f, 0x80, 0x8f, 0x90, 0xe0, 0xf0, 0xff, rng.randrange(256)]) for _ in range(k))
+        dec_lines.append("c02.dechdr " + hx(b))
+        dec_meta.append(b)
+    outs = ctx.driver.batch(dec_lines)
+    for b, o in zip(dec_meta, outs):
+        real = real_dechdr(b)
+        ctx.count("hdr.dec", b, True, "none" if real == "none" else f"type{real.split()[0]}")
+        if o != real:
+            ctx.disagree("hdr.dec", {"bytes": hx(b)}, o, real)
+    # OFS distance code
+    ns = list(OFS_BOUNDS) + [0]
+    for _ in range(ctx.budget(400)):
+        ns.append(rng.getrandbits(rng.choice([1, 6, 7, 8, 13, 14, 15, 20, 21, 22, 28, 29, 31, 32, 33, 63, 64])))
+    outs = ctx.driver.batch([f"c02.encofs {n}" for n in ns])
+    dec_lines, dec_meta = [], []
+    for n, o in zip(ns, outs):
+        real = bytes(P.pack_object_header(P.OFS_DELTA, n, 0, SHA1))[1:]
+        ctx.count("ofs.enc", n, True, f"{len(real)}B")
+        if o != hx(real):
+            ctx.disagree("ofs.enc", {"n": n}, o, hx(real))
+        tail = rng.choice(tails)
+        if n > 0:
+            codec_oracle(ctx, "ofs.roundtrip", "ofs", 6, n, tail)
+        dec_lines.append("c02.decofs " + hx(real + tail))
+        dec_meta.append(real + tail)
+    for _ in range(ctx.budget(300)):
+        k = rng.randint(0, 6)
+        b = bytes(rng.choice([0x00, 0x01, 0x7f, 0x80, 0x81, 0xff, rng.randrange(256)]) for _ in range(k))
+        dec_lines.append("c02.decofs " + hx(b))
+        dec_meta.append(b)
+    outs = ctx.driver.batch(dec_lines)
+    for b, o in zip(dec_meta, outs):
+        real = real_decofs(b)
+        ctx.count("ofs.dec", b, True, real.split(" ")[0])
+        if o != real:
+            ctx.disagree("ofs.dec", {"bytes": hx(b)}, o, real)
+    ctx.sample({"stream": "hdr.enc", "ty": 3, "size": 65536, "bytes": hx(bytes(P.pack_object_header(3, None, 65536, SHA1)))})
+
+
+# ------------------------------------------------------------------------------------------------
+# stream 2: pack index writers / readers
+
+OFFSETS = [12, 13, 255, 256, 65535, 2 ** 24, 2 ** 31 - 1, 2 ** 31, 2 ** 31 + 1, 2 ** 32 - 1, 2 ** 32, 2 ** 32 + 5, 2 ** 40,
+           2 ** 63, 2 ** 64 - 1]
+
+
+def gen_names(rng, n: int, hs: int):
+    mode = rng.choice(["random", "random", "same-first", "extremes", "dense", "two-buckets", "low"])
+    fb = rng.randrange(256)
+    pre = rng.randbytes(hs - 2)
+    names = set()
+    while len(names) < n:
+        if mode == "random":
+            nm = rng.randbytes(hs)
+        elif mode == "same-first":
+            nm = bytes([fb]) + rng.randbytes(hs - 1)
+        elif mode == "extremes":
+            nm = bytes([rng.choice([0, 0, 255, 255, 1, 254])]) + rng.randbytes(hs - 1)
+        elif mode == "dense":
+            nm = pre + rng.randbytes(2)
+        elif mode == "two-buckets":
+            nm = bytes([rng.choice([fb, (fb + 1) % 256])]) + rng.randbytes(hs - 1)
+        else:
+            nm = bytes([rng.randrange(0, 0x40)]) + rng.randbytes(hs - 1)
+        names.add(nm)
+    return mode, sorted(names)
+
+
+def gen_entries(rng, version: int, hs: int, n: int | None = None, craft_phantom: bool = False):
+    if n is None:
+        n = rng.choice([0, 0, 1, 1, 2, 3, 4, 5, 6, 7, 17, 40, 40, rng.randint(8, 120)])
+    mode, names = gen_names(rng, n, hs)
+    big = rng.random() < 0.6
+    es = []
+    for nm in names:
+        if big and rng.random() < 0.4:
+            off = rng.choice(OFFSETS)
+        else:
+            off = rng.randrange(12, 2 ** 31)
+        if version == 1:
+            off %= 2 ** 32
+        es.append((nm, off, rng.getrandbits(32)))
+    if craft_phantom and es and version != 1:
+        # make the bytes after the name table (the start of the CRC table) look like a name above every entry
+        es = [(nm, off, (0xFF000000 | (crc & 0xFFFFFF)) if i == 0 else crc) for i, (nm, off, crc) in enumerate(es)]
+        mode += "+crafted-crc"
+    return mode, es
+
+
+def phantom_name(version: int, hs: int, n: int, idxb: bytes) -> bytes:
+    """The hs bytes that follow the name table: what `_unpack_name(len(index))` returns."""
+    if version == 1:
+        at = 1024 + n * 24 + 4
+    else:
+        at = (1032 if version == 2 else 1040) + n * hs
+    return idxb[at:at + hs]
+
+
+def real_write_index(version: int, es, cs: bytes, fmt: int = 1):
+    import io
+    import dulwich.pack as P
+    f = io.BytesIO()
+    try:
+        if version == 1:
+            P.write_pack_index_v1(f, es, cs)
+        elif version == 2:
+            P.write_pack_index_v2(f, es, cs)
+        else:
+            P.write_pack_index_v3(f, es, cs, hash_format=fmt)
+    except Exception as e:
+        return real_err(e), None
+    return "ok", f.getvalue()
+
+
+def idx_trailer(version: int, cs: bytes, body: bytes) -> bytes:
+    import hashlib
+    if version == 2 and len(cs) == 32:
+        return hashlib.sha256(body).digest()
+    return hashlib.sha1(body).digest()
+
+
+def es_args(es) -> str:
+    return "".join(f" {hx(n)}:{o}:{c}" for n, o, c in es)
+
+
+def probes_for(rng, es, hs: int, phantom: bytes, limit=24):
+    present = [e[0] for e in es]
+    if len(present) > limit:
+        present = rng.sample(present, limit - 2) + [es[0][0], es[-1][0]]
+    absent = [rng.randbytes(hs), b"\x00" * hs, b"\xff" * hs, phantom]
+    for nm in rng.sample(present, min(4, len(present))):
+        b = bytearray(nm)
+        b[-1] ^= 1
+        absent.append(bytes(b))
+        b = bytearray(nm)
+        b[0] = (b[0] + rng.choice([1, 255])) % 256
+        absent.append(bytes(b))
+        b = bytearray(nm)
+        b[rng.randrange(hs)] ^= 0x80
+        absent.append(bytes(b))
+    names = set(e[0] for e in es)
+    absent = [a for a in dict.fromkeys(absent) if a not in names and len(a) == hs]
+    return present, absent
+
+
+def idx_lookup_oracle(ctx, stream, case, es, present, absent, phantom, results, variant):
+    """The property's words: a name in the entry set maps to its offset, any other name is absent."""
+    want = {e[0]: e[1] for e in es}
+    for nm, r in zip(present + absent, results):
+        if nm in want:
+            if r != f"ok:{want[nm]}":
+                ctx.oracle_fail(stream, dict(case, probe=hx(nm), variant=variant),
+                                f"index lookup of a present name gives {r}, want offset {want[nm]}")
+        elif r != "err:key":
+            cls = "phantom-name-after-table" if nm == phantom else None
+            ctx.oracle_fail(stream, dict(case, probe=hx(nm), variant=variant),
+                            f"index lookup of a name that is NOT in the index gives {r} instead of KeyError", cls)
+
+
+def idx_case(ctx, stream, version, hs, es, cs, fmt=1, mode="", workers=None, model=True):
+    rng = ctx.rng
+    case = {"kind": "idx", "version": version, "hs": hs, "fmt": fmt, "cs": hx(cs), "entries": [[hx(n), o, c] for n, o, c in es]}
+    st, real = real_write_index(version, es, cs, fmt)
+    big = sum(1 for e in es if e[1] >= 2 ** 31)
+    ctx.count(stream + ".write", (version, hs, tuple(es), cs, fmt), True, f"v{version}/hs{hs}/{'err' if real is None else 'ok'}/n{min(len(es), 8)}{'+' if len(es) > 8 else ''}/large{min(big, 3)}")
+    if model:
+        (o,) = ctx.driver.batch([f"c02.idxwrite {version} {fmt} {hx(cs)}" + es_args(es)])
+        if real is None:
+            if o != st:
+                ctx.disagree(stream + ".write", case, o, st)
+        else:
+            if not o.startswith("ok "):
+                ctx.disagree(stream + ".write", case, o[:100], "ok <%d bytes>" % len(real))
+            else:
+                body = unhx(o[3:])
+                full = body + idx_trailer(version, cs, body)
+                if full != real:
+                    ctx.disagree(stream + ".write", case, hx(full)[:200] + "…", hx(real)[:200] + "…")
+    if real is None:
+        return
+    # ---- read side
+    import hashlib
+    try:
+        idx = _load_idx(real, hs)
+    except Exception as e:
+        ctx.oracle_fail(stream, case, f"index written by dulwich cannot be loaded: {type(e).__name__}: {e}")
+        return
+    try:
+        n = len(es)
+        phantom = phantom_name(version, hs, n, real)
+        present, absent = probes_for(rng, es, hs, phantom)
+        names = present + absent
+        # in-process (installed extension: Rust bisect) and pure-Python (worker) variants
+        res = {"default": lookup_all(idx, names)}
+        if workers and "py" in workers:
+            rep = workers["py"].ask({"mod": MOD, "op": "idx_lookup", "args": {"idx": hx(real), "hs": hs, "names": [hx(x) for x in names]}})
+            if "r" in rep:
+                res["py"] = rep["r"]
+            else:
+                ctx.oracle_fail(stream, case, f"pure-Python index lookup died: {rep}")
+        for v, r in res.items():
+            idx_lookup_oracle(ctx, stream + ".lookup", case, es, present, absent, phantom, r, v)
+            for nm, x in zip(names, r):
+                ctx.count(stream + ".lookup", (v, real, nm), True,
+                          f"{v}:{'present' if nm in present else ('phantom' if nm == phantom else 'absent')}:{x.split(':')[0] + ':' + x.split(':')[1] if x.startswith('err') else 'ok'}")
+        # entries / len / checksums (direct oracle)
+        try:
+            got = [(bytes(a), b, c) for a, b, c in idx.iterentries()]
+        except Exception as e:
+            got = real_err(e)
+        want = [(a, b, None if version == 1 else c) for a, b, c in es]
+        if got != want:
+            ctx.oracle_fail(stream + ".entries", case, f"iterentries() of the written index differs from what was written: {str(got)[:120]}")
+        if len(idx) != n:
+            ctx.oracle_fail(stream + ".entries", case, f"len(index) = {len(idx)}, wrote {n} entries")
+        if bytes(idx.get_pack_checksum()) != cs:
+            ctx.oracle_fail(stream + ".entries", case, "stored pack checksum differs from the one written")
+        try:
+            idx.check()
+        except Exception as e:
+            ctx.oracle_fail(stream + ".entries", case, f"index checksum does not verify: {type(e).__name__}")
+        # fan-out law, straight from the bytes
+        at = {1: 0, 2: 8, 3: 16}[version]
+        for b in (0, 1, 0x7f, 0x80, 0xfe, 0xff, rng.randrange(256)):
+            v = int.from_bytes(real[at + 4 * b: at + 4 * b + 4], "big")
+            if v != sum(1 for e in es if e[0][0] <= b):
+                ctx.oracle_fail(stream + ".entries", case, f"fan-out[{b}] = {v} is not the number of names with first byte <= {b}")
+        some_offs = [e[1] for e in (rng.sample(es, min(3, n)))] + [7]
+        try:
+            rn = []
+            for o_ in some_offs:
+                try:
+                    rn.append("ok:" + hx(bytes(idx.object_sha1(o_))))
+                except KeyError:
+                    rn.append("err:key")
+        except Exception as e:
+            rn = [real_err(e)]
+        if model:
+            outs = ctx.driver.batch([f"c02.idxlookup {hs} {hx(real)}" + "".join(" " + hx(x) for x in names),
+                                     f"c02.idxentries {hs} {hx(real)}",
+                                     f"c02.idxname {hs} {hx(real)}" + "".join(f" {o_}" for o_ in some_offs)])
+            for v, r in res.items():
+                if outs[0].split(" ") != r:
+                    bad = [(hx(nm), a, b) for nm, a, b in zip(names, outs[0].split(" "), r) if a != b]
+                    ctx.disagree(stream + ".lookup", dict(case, probes=bad[:3]), [b[1] for b in bad[:3]], [b[2] for b in bad[:3]], v)
+            me = "ok" + "".join(f" {hx(a)}:{b}:{'-' if c is None else c}" for a, b, c in got) if isinstance(got, list) else got
+            ctx.count(stream + ".entries", (real,), True, f"v{version}")
+            if outs[1] != me:
+                ctx.disagree(stream + ".entries", case, outs[1][:200], me[:200])
+            ctx.count(stream + ".name", (real, tuple(some_offs)), True)
+            if outs[2].split(" ") != rn:
+                # with duplicate offsets the first entry in table order wins on both sides
+                ctx.disagree(stream + ".name", dict(case, offsets=some_offs), outs[2][:200], " ".join(rn)[:200])
+    finally:
+        idx.close()
+
+
+def _stream_index(ctx, workers):
+    rng = ctx.rng
+    n = ctx.budget(70)
+    for i in range(n):
+        version = rng.choice([1, 2, 2, 2, 3])
+        hs = 32 if (version == 2 and rng.random() < 0.35) else 20
+        mode, es = gen_entries(rng, version, hs, craft_phantom=(i % 5 == 0))
+        cs = rng.randbytes(hs)
+        idx_case(ctx, "idx", version, hs, es, cs, mode=mode, workers=workers)
+    # fixed boundary cases: empty index of every version, single entry with every boundary offset
+    for version, hs in ((1, 20), (2, 20), (2, 32), (3, 20)):
+        idx_case(ctx, "idx", version, hs, [], rng.randbytes(hs), workers=workers)
+        for off in OFFSETS:
+            if version == 1 and off >= 2 ** 32:
+                continue
+            idx_case(ctx, "idx", version, hs, [(rng.randbytes(hs), off, rng.getrandbits(32))], rng.randbytes(hs), workers=workers)
+    # writer error branches (model vs real only)
+    bad = []
+    nm = rng.randbytes(20)
+    bad.append((1, 20, [(nm, 2 ** 32, 1)], rng.randbytes(20), 1))             # v1: offset too large
+    bad.append((1, 20, [(rng.randbytes(32), 5, 1)], rng.randbytes(20), 1))     # v1: sha-256 name
+    bad.append((1, 20, [(nm, 5, 1)], rng.randbytes(32), 1))                    # v1: checksum length
+    bad.append((2, 20, [(nm, 2 ** 64, 1)], rng.randbytes(20), 1))              # v2: offset beyond 64 bit
+    bad.append((2, 20, [(nm, 5, 2 ** 32)], rng.randbytes(20), 1))              # v2: crc beyond 32 bit
+    bad.append((2, 20, [(nm, 5, 1), (rng.randbytes(32), 6, 2)], rng.randbytes(20), 1))  # v2: mixed name lengths
+    bad.append((2, 20, [(nm, 5, 1)], rng.randbytes(21), 1))                    # v2: checksum length
+    bad.append((2, 32, [(nm, 5, 1)], rng.randbytes(32), 1))                    # v2: 20-byte names, 32-byte checksum (accepted)
+    bad.append((3, 20, [(nm, 5, 1)], rng.randbytes(20), 2))                    # v3: sha-256 not implemented
+    bad.append((3, 20, [(nm, 5, 1)], rng.randbytes(20), 3))                    # v3: unknown hash format
+    bad.append((3, 20, [(rng.randbytes(32), 5, 1)], rng.randbytes(20), 1))     # v3: wrong name length
+    bad.append((3, 20, [(nm, 5, 1)], rng.randbytes(32), 1))                    # v3: checksum length
+    for version, hs, es, cs, fmt in bad:
+        st, real = real_write_index(version, es, cs, fmt)
+        (o,) = ctx.driver.batch([f"c02.idxwrite {version} {fmt} {hx(cs)}" + es_args(es)])
+        ctx.count("idx.write.errors", (version, tuple(es), cs, fmt), True, f"v{version}:{st}")
+        if real is None:
+            if o != st:
+                ctx.disagree("idx.write.errors", {"version": version, "entries": [[hx(a), b, c] for a, b, c in es], "cs": hx(cs), "fmt": fmt}, o, st)
+        else:
+            body = unhx(o[3:]) if o.startswith("ok ") else b""
+            if body + idx_trailer(version, cs, body) != real:
+                ctx.disagree("idx.write.errors", {"version": version, "entries": [[hx(a), b, c] for a, b, c in es], "cs": hx(cs), "fmt": fmt}, o[:120], "ok " + hx(real)[:100])
+    # loader error branches: truncated / wrong-version files (model vs real only)
+    _, good = real_write_index(2, [(nm, 5, 1)], rng.randbytes(20))
+    _, good1 = real_write_index(1, [(nm, 5, 1)], rng.randbytes(20))
+    _, good3 = real_write_index(3, [(nm, 5, 1)], rng.randbytes(20))
+    muts = [good[:6], good[:8], good[:500], good[:1031], good[:4] + b"\0\0\0\4" + good[8:], good1[:100], good1[:1023], b"",
+            good3[:12], good3[:8] + b"\0\0\0\7" + good3[12:], good3[:8] + b"\0\0\0\2" + good3[12:], good3[:1039]]
+    lines = [f"c02.idxload 20 {hx(m)}" for m in muts] + [f"c02.idxload 32 {hx(good1)}", f"c02.idxload 32 {hx(good3)}"]
+    outs = ctx.driver.batch(lines)
+    for m, hs_, o in zip(muts + [good1, good3], [20] * len(muts) + [32, 32], outs):
+        try:
+            x = _load_idx(m, hs_)
+            r = f"ok {x.version} {len(x)}"
+            x.close()
+        except Exception as e:
+            r = real_err(e)
+        ctx.count("idx.load.errors", (m, hs_), True, r.split(" ")[0])
+        if o != r:
+            ctx.disagree("idx.load.errors", {"idx": hx(m)[:80], "len": len(m), "hs": hs_}, o, r)
